@@ -34,6 +34,34 @@ With `vectors=True` a match arm whose value is a `Vector` expression (`&[f64]` p
 `Vector::ones(v.len())`, `vmul(..)`, the operator overloads `f64 ∘ Vector`, `Vector ∘ f64`, `Vector ∘ Vector`, unary
 minus, `.exp()`) is translated onto the shared element-wise kernels of Model/Vops.lean (fragment kind "arm").
 
+Loops and iterator chains (option `loops=True`, second pass; whole functions, no fragments)
+  * parameters / results: `&[f64]`, `Vec<f64>`, `Vector` (-> `List α`), tuples of scalars (-> `×`), `usize`/`i32`;
+    generic closure parameters `f: F` listed in `fn_params` become function binders
+  * `let mut x = e;`, `let (mut a, mut b) = (..);`, `let (a, _, c) = tuple_value;`, `x = e;`, `x op= e;` (a shadowing
+    `let`; tuple components are substituted by projections), `v.push(e)` on a `let mut` Vec (`v ++ [e]`)
+  * `for pat in iter { body }` without early exit whose body re-assigns `let mut` variables of the enclosing scope:
+    `List.foldl (fun state item => body; new state) state iter`; the state is the assigned variable, or the tuple of
+    the assigned variables IN DECLARATION ORDER; nested `for` loops are folds inside the body
+  * ranges `lo..hi` of usize: `List.range hi` (lo = 0) / `List.range' lo (hi - lo)`; slices and `.iter()`,
+    `.into_iter()`, `.collect()`, `.to_vec()`: the list itself; `.map(|x| e)` `List.map`, `.zip(ys)` `List.zip`,
+    `.enumerate()` `List.zipIdx` (pairs are `(item, index)`: the pattern `(i, x)` is bound accordingly),
+    `.fold(init, |acc, x| e)` `List.foldl`, `.windows(2)` `List.zip l l.tail` (`w[0]`, `w[1]` are `.1`, `.2`),
+    `.skip(k)` `List.drop`, `.take(n)` `List.take`, `.rev()` `List.reverse`, `.len()` `.length`,
+    `.sum::<f64>()` the option `iter_sum` (default `Cv.iterSum`: LEFT FOLD FROM -0.0, as `Iterator::sum` for f64),
+    `.product()` `List.foldl (· * ·) 1`; tuple fields `.0 .1 ..`; calls with slice / tuple arguments (`fns`), whose
+    result type is declared (`fn_ret`), read off the signature of a function of the same file, or f64
+  * panics are values: `usize` subtraction `a - b` is CHECKED — the statement containing it is wrapped in the guard
+    `if b ≤ a then .. else none` (not needed when `a` is the index of a range whose lower bound is literally `b`);
+    `usize` division `a / b` is guarded by `0 < b`; a call of a function listed in `opt_fns` (its Lean spelling
+    returns `Option`) is bound before the statement (`(call).bind fun r => ..`); `Ok(e)` / `Err(..)` of a function
+    returning `Result<T, String>` are `some e` / `none` (callers `.unwrap()`).  A panic source inside a closure or a
+    loop body cannot be hoisted: `Unsupported`.
+  * acknowledged by the option (as `int_arith` for overflow): `x[i]` is `x[i]!` — the out-of-bounds panic of slice
+    indexing is NOT modelled; `k.abs() as usize` of an `i32` is `Int.natAbs k` (overflow at `i32::MIN` not modelled).
+  Still outside: `while`/`loop`, `break`/`continue`/`return`/`assert!`/`if` statements inside a loop body, assignment to
+  anything but a plain `let mut` variable (`v[i] = e`, fields), `.filter`, `.flat_map`, `.chunks`, `match`, `if let`,
+  closures that are not the argument of `.map` / `.fold`.
+
 Everything else raises `Unsupported` — never a silent approximation.
 
 What is preserved exactly: the expression tree of every float operation (association, operand order, where
@@ -522,7 +550,16 @@ class Parser:
             elif e.kind == "if" or e.kind == "block":
                 stmts.append(N("exprstmt", e=e))     # block-like expression statement without ';'
             elif any(self.at(op) for op in ASSIGN_OPS):
-                raise Unsupported("assignment `%s` (mutation is outside the subset)" % self.peek().s)
+                op = self.peek().s
+                if not getattr(self.src, "allow_assign", False):      # set by the translator with the option `loops`
+                    raise Unsupported("assignment `%s` (mutation is outside the subset)" % op)
+                self.i += 1
+                rhs = self.expr()
+                if self.at(";"):
+                    self.i += 1
+                elif self.i < self.hi:
+                    raise Unsupported("unexpected token %r after assignment" % self.peek().s)
+                stmts.append(N("assign", target=e, op=op, e=rhs))
             else:
                 t = self.peek()
                 raise Unsupported("unexpected token %r after expression (offset %d)" % (t.s, t.pos))
@@ -538,17 +575,23 @@ class Parser:
             close = self.mt[self.i]
             names = []
             p = self.sub(self.i + 1, close)
+            muts = []
             while p.i < p.hi:
+                m_ = False
                 if p.at("mut"):
-                    raise Unsupported("`let (mut ..)`")
+                    m_ = True
+                    p.i += 1
                 if p.peek().k != "id":
                     raise Unsupported("let pattern")
+                muts.append(m_)
                 names.append(p.peek().s)
                 p.i += 1
                 if p.i < p.hi:
                     p.eat(",")
             self.i = close + 1
             pat = names
+            if any(muts):
+                mut = muts
         elif self.peek().k == "id":
             pat = self.peek().s
             self.i += 1
@@ -639,15 +682,33 @@ class Parser:
                 if nxt.k == "id":
                     name = nxt.s
                     self.i += 2
+                    turbofish = None
                     if self.at("::"):
-                        raise Unsupported("turbofish on method `%s`" % name)
+                        # `.sum::<f64>()`, `.collect::<Vec<_>>()`: the generic arguments are recorded as text
+                        if self.peek(1).s != "<":
+                            raise Unsupported("turbofish on method `%s`" % name)
+                        self.i += 2
+                        depth, start = 1, self.i
+                        while depth > 0:
+                            if self.i >= self.hi:
+                                raise Unsupported("turbofish on method `%s`" % name)
+                            t_ = self.peek().s
+                            depth += (t_ == "<") - (t_ == ">") - 2 * (t_ == ">>")
+                            self.i += 1
+                        turbofish = "".join(x.s for x in self.T[start:self.i - 1])
+                        if depth < 0 or not self.at("("):
+                            raise Unsupported("turbofish on method `%s`" % name)
                     if self.at("("):
-                        e = N("method", recv=e, name=name, args=self.args())
+                        e = N("method", recv=e, name=name, args=self.args(), turbofish=turbofish)
                     else:
                         e = N("field", e=e, name=name)
                     continue
                 if nxt.k == "num":
-                    raise Unsupported("tuple field access")
+                    if not nxt.s.isdigit():
+                        raise Unsupported("tuple field access `.%s`" % nxt.s)
+                    self.i += 2
+                    e = N("tfield", e=e, idx=int(nxt.s))
+                    continue
                 raise Unsupported("token after `.`: %r" % nxt.s)
             if self.at("["):
                 close = self.mt[self.i]
@@ -734,28 +795,35 @@ class Parser:
 
     def closure(self):
         params = []
+        pats = []            # one entry per closure parameter: a name, or the list of names of a tuple pattern
         if self.at("||"):
             self.i += 1
         else:
             self.eat("|")
             while not self.at("|"):
+                if self.at("&") and self.peek(1).s == "(":
+                    self.i += 1
                 if self.at("("):
                     close = self.mt[self.i]
                     p = self.sub(self.i + 1, close)
+                    group = []
                     while p.i < p.hi:
                         while p.at("&") or p.at("mut"):
                             p.i += 1
                         params.append(p.peek().s)
+                        group.append(p.peek().s if p.peek().k == "id" else None)
                         p.i += 1
                         if p.i < p.hi:
                             p.eat(",")
                     self.i = close + 1
+                    pats.append(group)
                 else:
                     while self.at("&") or self.at("mut"):
                         self.i += 1
                     if self.peek().k != "id":
                         raise Unsupported("closure parameter pattern")
                     params.append(self.peek().s)
+                    pats.append(self.peek().s)
                     self.i += 1
                     if self.at(":"):
                         self.i += 1
@@ -765,7 +833,7 @@ class Parser:
                     self.i += 1
             self.eat("|")
         body = self.expr()
-        return N("closure", params=params, body=body)
+        return N("closure", params=params, pats=pats, body=body)
 
 
 # ======================================================================================= options / dialect
@@ -805,6 +873,11 @@ class Opts:
         self.branch = None            # "then" | "else": translate only that block of the top-level `if`
         self.closure = None           # fragment selection, see Translator._closure_def
         self.vectors = False          # allow `&[f64]` / `Vector` values (element-wise kernels of Model/Vops.lean)
+        self.loops = False            # the simple loop / iterator-chain subset (see "Loops and iterator chains" below)
+        self.iter_sum = "Cv.iterSum"  # spelling of `Iterator::sum::<f64>()` (left fold from -0.0)
+        self.fn_ret = {}              # rust fn name -> return type of a called function, e.g. ("tup", ("nat","f64","f64"))
+        self.opt_fns = ()             # called functions whose Lean spelling returns `Option` (the Rust function can panic)
+        self.fn_params = {}           # generic closure parameters `f: F` -> Lean type of the binder, e.g. {"f": "α → α"}
         self.doc = None
         self.__dict__.update(kw)
 
@@ -878,6 +951,114 @@ def rust_ty(ty):
 
 LEAN_TY = {F: "α", I: "Int", U: "Nat", B: "Bool", V: "List α"}
 
+
+# ---- types of the loop / iterator subset (option `loops`): scalars as above, and
+#   ("tup", (t1, .., tn))  Rust tuple            -> Lean `t1 × .. × tn` (right-nested pairs)
+#   ("list", t)            slice / Vec / iterator-> `List t`          (V is the same as ("list", F))
+#   ("range", lo)          `lo..hi` of usize     -> `List Nat`        (remembers the Lean text of its lower bound)
+#   ("enum", t)            item of `.enumerate()`-> `t × Nat`         (`List.zipIdx`: the INDEX IS THE SECOND component)
+#   ("win", 2)             item of `.windows(2)` -> `α × α`           (`w[0]` = `.1`, `w[1]` = `.2`)
+def is_tup(t):
+    return isinstance(t, tuple) and t[0] == "tup"
+
+
+def is_list(t):
+    return t == V or (isinstance(t, tuple) and t[0] in ("list", "range"))
+
+
+def elem_ty(t):
+    if t == V:
+        return F
+    if t[0] == "range":
+        return U
+    return t[1]
+
+
+def mk_list(t):
+    return V if t == F else ("list", t)
+
+
+def norm_list(t):
+    return mk_list(elem_ty(t))
+
+
+def _tyatom(t):
+    s = lean_ty(t)
+    return s if re.fullmatch(r"[\w.α]+", s) else "(" + s + ")"
+
+
+def lean_ty(t):
+    if isinstance(t, str):
+        if t not in LEAN_TY:
+            raise Unsupported("value of type %s has no Lean type here" % t)
+        return LEAN_TY[t]
+    k = t[0]
+    if k == "tup":
+        return " × ".join(_tyatom(x) for x in t[1])
+    if k == "list":
+        return "List " + _tyatom(t[1])
+    if k == "range":
+        return "List Nat"
+    if k == "enum":
+        return "%s × Nat" % _tyatom(t[1])
+    if k == "win":
+        return "α × α"
+    raise Unsupported("type %r" % (t,))
+
+
+def rust_ty2(s):
+    """Rust type text (tokens joined without spaces) -> type of the loop subset, or None"""
+    s = re.sub(r"&('\w+)?", "", s.strip())
+    if s.startswith("mut"):
+        s = s[3:]
+    if s.startswith("(") and s.endswith(")"):
+        parts, depth, cur = [], 0, ""
+        for ch in s[1:-1]:
+            if ch in "(<[":
+                depth += 1
+            elif ch in ")>]":
+                depth -= 1
+            if ch == "," and depth == 0:
+                parts.append(cur)
+                cur = ""
+            else:
+                cur += ch
+        if cur:
+            parts.append(cur)
+        tys = tuple(rust_ty2(x) for x in parts)
+        if None in tys or not tys:
+            return None
+        return tys[0] if len(tys) == 1 else ("tup", tys)
+    m = re.fullmatch(r"Vec<(.*)>|\[(.*)\]", s)
+    if m:
+        inner = rust_ty2(m.group(1) or m.group(2))
+        return None if inner is None else mk_list(inner)
+    if s == "Vector":
+        return V
+    return rust_ty(s)
+
+
+def compat(a, b):
+    """may a value of (inferred) type a be used where type b is expected"""
+    if a == b:
+        return True
+    if a == INTLIT:
+        return b in (I, U)
+    if is_list(a) and is_list(b):
+        return compat(elem_ty(a), elem_ty(b))
+    if is_tup(a) and is_tup(b) and len(a[1]) == len(b[1]):
+        return all(compat(x, y) for x, y in zip(a[1], b[1]))
+    return False
+
+
+def deflt(t):
+    """untyped integer literals inside tuples / fold seeds are `usize`"""
+    if t == INTLIT:
+        return U
+    if is_tup(t):
+        return ("tup", tuple(deflt(x) for x in t[1]))
+    return t
+
 # `Vector` / `&[f64]` values (option `vectors=True` only): the operator overloads and helpers of src/linalg are spelled
 # with the shared element-wise kernels of Model/Vops.lean, exactly as the hand models spell them.
 VEC_BIN = {(F, V): "(Cv.Vops.sv (· {op} ·) {l} {r})", (V, F): "(Cv.Vops.vs (· {op} ·) {l} {r})",
@@ -890,6 +1071,11 @@ class Translator:
         self.src, self.fn, self.o = src, fn, opts
         self.uses = set()
         self.option_mode = False
+        self.pre_stack = []           # hoisted panic sources of the statement being translated (option `loops`)
+        self.in_closure = 0           # > 0 inside a closure / loop body: nothing can be hoisted out of it
+        self.need_option = False
+        self.fresh_n = 0
+        self.decl_order = []          # `let mut` names in declaration order (order of the loop-state tuple)
 
     # ---- names
     def lname(self, rust):
@@ -900,8 +1086,22 @@ class Translator:
 
     # ---- entry
     def run(self):
+        self.src.allow_assign = bool(self.o.loops)
+        try:
+            out = self._run(False)
+            if self.need_option and not self.started_option:
+                # a panic source (checked `usize` subtraction, call of a panicking function) was met in a function
+                # without assert!/panic!: translate again with `Option` as the result type
+                self.fresh_n, self.decl_order, self.need_option = 0, [], False
+                out = self._run(True)
+            return out
+        finally:
+            self.src.allow_assign = False
+
+    def _run(self, force_option):
         o, fn, src = self.o, self.fn, self.src
         if o.closure is not None:      # a closure of an iterator pipeline: the rest of the body is not parsed
+            self.started_option = True
             return self._closure_def()
         body = Parser(src, *fn.body).block_body()
         params = self._params()
@@ -925,22 +1125,26 @@ class Translator:
                 for f, ty in src.structs[fn.impl]:
                     if o.self_fields is not None and f not in o.self_fields:
                         continue
-                    rt = rust_ty(ty)
-                    if rt is None or (rt == V and not o.vectors):
+                    rt = rust_ty2(ty) if o.loops else rust_ty(ty)
+                    if rt is None or (rt == V and not (o.vectors or o.loops)):
                         if o.self_fields is not None:
                             raise Unsupported("field %s: type %s" % (f, ty))
                         continue      # helper fields (samplers, rngs) are not scalars: not binders
                     env["self." + f] = (self.lname(f), rt)
-                    binders.append((self.lname(f), LEAN_TY[rt]))
+                    binders.append((self.lname(f), lean_ty(rt)))
                     self.self_args.append(self.lname(f))
         for name, ty in params:
             if name == "self":
                 continue
-            rt = rust_ty(self._macro_ty(ty))
-            if rt is None or (rt == V and not o.vectors):
+            if name in o.fn_params:                 # a closure parameter `f: F where F: Fn(f64) -> f64`
+                binders.append((self.lname(name), o.fn_params[name]))
+                o.fns.setdefault(name, self.lname(name))
+                continue
+            rt = rust_ty2(self._macro_ty(ty)) if o.loops else rust_ty(self._macro_ty(ty))
+            if rt is None or (rt == V and not (o.vectors or o.loops)):
                 raise Unsupported("parameter %s: type %s" % (name, ty))
             env[name] = (self.lname(name), rt)
-            binders.append((self.lname(name), LEAN_TY[rt]))
+            binders.append((self.lname(name), lean_ty(rt)))
         # ---- fragment selection
         if o.branch:
             if body.stmts or body.tail is None or body.tail.kind != "if":
@@ -963,9 +1167,22 @@ class Translator:
             if bd:
                 raise Unsupported("binders not listed: %s" % ", ".join(bd))
             binders = order
-        self.option_mode = self._can_panic(body)
+        self.option_mode = self._can_panic(body) or force_option
+        self.started_option = self.option_mode
         ret = self._ret_type()
-        if ret != F and not o.closure:
+        self.ret_ty = F
+        if o.loops:
+            names = [t.s for t in self.src.toks[fn.ret[0]:fn.ret[1]]]
+            rtxt = "".join(names[1:]).split("where")[0] if names and names[0] == "->" else ""
+            m_ = re.fullmatch(r"Result<(.*),String>", rtxt)
+            self.result_ret = bool(m_)
+            if m_:                                          # `Ok(e)` = `some e`, `Err(..)` = `none`
+                rtxt = m_.group(1)
+                self.option_mode = self.started_option = True
+            self.ret_ty = rust_ty2(rtxt) if rtxt else None
+            if self.ret_ty is None:
+                raise Unsupported("return type %s" % self.src.snippet(fn.ret))
+        elif ret != F and not o.closure:
             raise Unsupported("return type %s" % self.src.snippet(fn.ret))
         lean_body = self.tail_block(body, env, 1)
         if o.ret_type:
@@ -973,7 +1190,7 @@ class Translator:
         elif o.moment:
             rty = o.moment[3] if len(o.moment) > 3 else "Moment α"
         else:
-            rty = "α"
+            rty = lean_ty(self.ret_ty)
         if self.option_mode:
             rty = "Option (%s)" % rty if " " in rty else "Option %s" % rty
         return self._emit_def(binders, rty, lean_body)
@@ -1102,15 +1319,16 @@ class Translator:
         """an expression whose value is returned"""
         if e.kind == "paren" and e.e.kind in ("if", "block"):
             e = e.e
-        if e.kind == "if" and self.option_mode and not self._can_panic(e) and not self._has_return(e):
+        if e.kind == "if" and self.option_mode and not self._can_panic(e) and not self._has_return(e) \
+                and not getattr(self, "result_ret", False):
             # a pure conditional value of a function that can panic elsewhere: `some (if .. then .. else ..)`
             return self.ind(d) + "some %s" % self.atom(self.expr(e, env)[0])
         if e.kind == "if":
             if e.els is None:
                 raise Unsupported("`if` without `else` in value position")
-            c = self.cond(e.c, env)
-            return "%sif %s then\n%s\n%selse\n%s" % (self.ind(d), c, self.tail_block(e.then, env, d + 1), self.ind(d),
-                                                    self.tail_block(e.els, env, d + 1))
+            c, pre = self.collect(lambda: self.cond(e.c, env))
+            return self.wrap(pre, "%sif %s then\n%s\n%selse\n%s" % (
+                self.ind(d), c, self.tail_block(e.then, env, d + 1), self.ind(d), self.tail_block(e.els, env, d + 1)), d)
         if e.kind == "block":
             return self.tail_block(e, env, d)
         if e.kind == "macro" and e.name in ("panic", "unreachable"):
@@ -1124,11 +1342,57 @@ class Translator:
                 v = nan
             else:
                 v = "%s %s" % (fin, self.atom(self.fexpr(e, env)))
+        elif self.o.loops:
+            if getattr(self, "result_ret", False):
+                if e.kind == "call" and e.path == ["Err"]:
+                    return self.ind(d) + "none"
+                if e.kind == "call" and e.path == ["Ok"] and len(e.args) == 1:
+                    e = e.args[0]
+                else:
+                    raise Unsupported("value of a `Result` function that is neither `Ok(..)` nor `Err(..)`")
+            (v, ty), pre = self.collect(lambda: self.expr(e, env))
+            if not compat(ty, self.ret_ty):
+                raise Unsupported("value of type %s returned from a function of type %s" % (ty, self.ret_ty))
+            if self.option_mode:
+                v = "some %s" % self.atom(v)
+            return self.wrap(pre, self.ind(d) + v, d)
         else:
             v = self.fexpr(e, env)
         if self.option_mode:
             v = "some %s" % self.atom(v)
         return self.ind(d) + v
+
+    # ---- hoisted panic sources (option `loops`): a checked `usize` subtraction `a - b` registers the guard `b ≤ a`,
+    # a call of a panicking function registers a bind; the STATEMENT that contains them is wrapped
+    # (`if b ≤ a then .. else none`, `(call).bind fun r => ..`).  Inside a closure or a loop body nothing can be hoisted.
+    def collect(self, f):
+        self.pre_stack.append([])
+        try:
+            v = f()
+        finally:
+            pre = self.pre_stack.pop()
+        return v, pre
+
+    def add_pre(self, item, what):
+        if self.in_closure:
+            raise Unsupported("%s inside a closure / loop body (a panic there cannot be hoisted)" % what)
+        if not self.pre_stack:
+            raise Unsupported("%s in a position that cannot carry a guard" % what)
+        self.need_option = True
+        self.pre_stack[-1].append(item)
+
+    def wrap(self, pre, inner, d):
+        for item in reversed(pre):
+            if item[0] == "guard":
+                inner = "%sif %s then\n%s\n%selse none" % (self.ind(d), item[1], self._indent_more(inner), self.ind(d))
+            else:
+                inner = "%s%s.bind fun (%s : %s) =>\n%s" % (self.ind(d), self.atom(item[2]), item[1], lean_ty(item[3]),
+                                                             self._indent_more(inner))
+        return inner
+
+    def fresh(self, base):
+        self.fresh_n += 1
+        return "%s%d" % (base, self.fresh_n)
 
     def _const_key(self, e):
         if e.kind == "path":
@@ -1141,23 +1405,45 @@ class Translator:
         env = dict(env)
         return self.tail_stmts(blk.stmts, 0, blk.tail, env, d)
 
-    def tail_stmts(self, stmts, i, tail, env, d):
+    def tail_stmts(self, stmts, i, tail, env, d, finish=None):
         if i == len(stmts):
+            if finish is not None:            # body of a `for` loop: the value is the new loop state
+                if tail is not None:
+                    raise Unsupported("loop body with a value")
+                return finish(env, d)
             if tail is None:
                 raise Unsupported("block without a value")
             return self.leaf(tail, env, d)
         s = stmts[i]
-        rest = lambda env2=env: self.tail_stmts(stmts, i + 1, tail, env2, d)
+        rest = lambda env2=env: self.tail_stmts(stmts, i + 1, tail, env2, d, finish)
+        loops = self.o.loops
         if s.kind == "let":
             if s.mut:
                 if isinstance(s.pat, str) and s.pat in self.o.loops_as_params:
                     return rest()         # accumulator of a skipped loop: it is a parameter
-                raise Unsupported("`let mut %s`" % (s.pat,))
+                if not loops:
+                    raise Unsupported("`let mut %s`" % (s.pat,))
+            if loops:
+                lines, pre = self.collect(lambda: self.let_lines(s, env, d))
+                return self.wrap(pre, lines + rest(env), d)
             return self.let_lines(s, env, d) + rest(env)
         if s.kind == "loop":
             if self.o.loops_as_params:
                 return rest()
+            if loops:
+                lines, pre = self.collect(lambda: self.loop_lines(s, env, d))
+                return self.wrap(pre, lines + rest(env), d)
             raise Unsupported("loop `%s`" % s.head)
+        if s.kind == "assign":
+            if not loops:
+                raise Unsupported("assignment `%s` (mutation is outside the subset)" % s.op)
+            lines, pre = self.collect(lambda: self.assign_lines(s, env, d))
+            return self.wrap(pre, lines + rest(env), d)
+        if loops and s.kind == "exprstmt" and s.e.kind == "method" and s.e.name == "push":
+            lines, pre = self.collect(lambda: self.push_lines(s.e, env, d))
+            return self.wrap(pre, lines + rest(env), d)
+        if finish is not None and (s.kind == "return" or (s.kind == "exprstmt" and s.e.kind in ("macro", "if"))):
+            raise Unsupported("`%s` inside a loop body (early exit / panic)" % (s.kind if s.kind == "return" else s.e.kind))
         if s.kind == "return":
             if s.e is None:
                 raise Unsupported("`return;`")
@@ -1175,6 +1461,24 @@ class Translator:
 
     def let_lines(self, s, env, d):
         """emits `let` lines and updates env"""
+        loops = self.o.loops
+        if isinstance(s.pat, list) and loops and s.e.kind != "tuple":
+            # `let (a, _, c) = e;` of a tuple-valued variable / call: projections (`_` binds nothing)
+            v, ty = self.expr(s.e, env)
+            if not is_tup(ty) or len(ty[1]) != len(s.pat):
+                raise Unsupported("tuple `let` of a value of type %s" % (ty,))
+            out = ""
+            if s.e.kind != "var":
+                tmp = self.fresh("t")
+                out = "%slet %s : %s := %s\n" % (self.ind(d), tmp, lean_ty(ty), v)
+                v = tmp
+            muts = s.mut if isinstance(s.mut, list) else [False] * len(s.pat)
+            for k, name in enumerate(s.pat):
+                if name == "_":
+                    continue
+                env[name] = (self.proj(v, k, len(s.pat)), ty[1][k])     # substituted, not re-bound
+                self._declare(name, env, muts[k])
+            return out
         if isinstance(s.pat, list):
             if s.e.kind != "tuple" or len(s.e.items) != len(s.pat):
                 raise Unsupported("tuple `let` needs a tuple of the same arity on the right")
@@ -1187,20 +1491,211 @@ class Translator:
                     if re.search(r"(?<![\w.])%s(?![\w])" % re.escape(ln), v2):
                         raise Unsupported("tuple `let`: component mentions a name bound earlier in the same pattern")
                 out += "%slet %s : %s := %s\n" % (self.ind(d), ln, self._lean_ty(ty), v)
-            for name, (v, ty) in zip(s.pat, vals):
+            muts = s.mut if isinstance(s.mut, list) else [False] * len(s.pat)
+            for k, (name, (v, ty)) in enumerate(zip(s.pat, vals)):
                 env[name] = (self.lname(name), ty)
+                if loops:
+                    self._declare(name, env, muts[k])
             return out
         v, ty = self.expr(s.e, env)
+        if loops:
+            ty = deflt(ty) if is_tup(ty) else ty
+            if ty == ("list", None):              # `let mut v = Vec::new();`: no `let` line, the empty list is substituted
+                env[s.pat] = ("[]", ty)
+                self._declare(s.pat, env, bool(s.mut))
+                return ""
         if s.ty is not None:
-            want = rust_ty(s.ty)
-            if want is None or (want != ty and not (ty == INTLIT and want in (I, U))):
+            want = rust_ty2(s.ty) if loops else rust_ty(s.ty)
+            if want is None or (want != ty and not (ty == INTLIT and want in (I, U)) and not (loops and compat(ty, want))):
                 raise Unsupported("let %s: %s := <%s>" % (s.pat, s.ty, ty))
             ty = want
         ln = self.lname(s.pat)
         env[s.pat] = (ln, ty)
+        if loops:
+            self._declare(s.pat, env, bool(s.mut))
         return "%slet %s : %s := %s\n" % (self.ind(d), ln, self._lean_ty(ty), v)
 
+    # ---- mutation and loops (option `loops`)
+    MUT = "\0mut:"        # env keys: is the Rust variable `mut`;  LO: known lower bound (Lean text) of a usize variable
+    LO = "\0lo:"
+
+    def _declare(self, name, env, mut):
+        env.pop(self.LO + name, None)
+        env[self.MUT + name] = bool(mut)
+        if mut:
+            if name in self.decl_order:
+                self.decl_order.remove(name)
+            self.decl_order.append(name)
+
+    def proj(self, v, k, n):
+        """component k of an n-tuple (right-nested pairs)"""
+        v = self.atom(v)
+        if n == 1:
+            return v
+        return v + ".2" * k + ("" if k == n - 1 else ".1")
+
+    def assign_lines(self, s, env, d):
+        """`x = e;` / `x op= e;` on a `let mut` variable: a shadowing `let`"""
+        t = s.target
+        if t.kind != "var":
+            raise Unsupported("assignment to `%s` (only plain `let mut` variables)" % t.kind)
+        name = t.name
+        if name not in env or not env.get(self.MUT + name):
+            raise Unsupported("assignment to `%s`, which is not a `let mut` variable in scope" % name)
+        old_ty = env[name][1]
+        if s.op == "=":
+            v, ty = self.expr(s.e, env)
+        elif s.op in ("+=", "-=", "*=", "/="):
+            v, ty = self.expr(N("bin", op=s.op[0], l=t, r=s.e), env)
+        else:
+            raise Unsupported("assignment operator `%s`" % s.op)
+        if not compat(ty, old_ty):
+            raise Unsupported("assignment of a %s to `%s` of type %s" % (ty, name, old_ty))
+        ln = self.lname(name)
+        env[name] = (ln, old_ty)
+        env.pop(self.LO + name, None)
+        return "%slet %s : %s := %s\n" % (self.ind(d), ln, lean_ty(old_ty), v)
+
+    def push_lines(self, e, env, d):
+        """`v.push(e);` on a `let mut` vector: `v ++ [e]`"""
+        if e.recv.kind != "var" or len(e.args) != 1:
+            raise Unsupported("`push` shape")
+        name = e.recv.name
+        if name not in env or not env.get(self.MUT + name) or not is_list(env[name][1]):
+            raise Unsupported("`push` on `%s`, which is not a `let mut` vector in scope" % name)
+        lty = env[name][1]
+        v, ty = self.expr(e.args[0], env)
+        if lty == ("list", None):              # `Vec::new()` / `Vec::with_capacity(n)`: element type from the first push
+            lty = mk_list(deflt(ty))
+        if not compat(ty, elem_ty(lty)):
+            raise Unsupported("push of a %s onto %s" % (ty, lty))
+        ln = self.lname(name)
+        out = "%slet %s : %s := (%s ++ [%s])\n" % (self.ind(d), ln, lean_ty(lty), self.atom(env[name][0]), v)
+        env[name] = (ln, lty)
+        return out
+
+    def _parse_for(self, node):
+        """`for pat in iter { body }` -> (pattern: name | [names], iterator expression, body block)"""
+        if getattr(node, "parsed", None):
+            return node.parsed
+        T, mt = self.src.toks, self.src.mt
+        lo, hi = node.rng
+        if T[lo].s != "for":
+            raise Unsupported("loop `%s` (only `for` loops)" % node.head)
+        i = lo + 1
+        if T[i].s == "(":
+            close = mt[i]
+            pat, j = [], i + 1
+            while j < close:
+                while T[j].s in ("&", "mut"):
+                    j += 1
+                if T[j].k != "id":
+                    raise Unsupported("`for` pattern")
+                pat.append(T[j].s)
+                j += 1
+                if j < close:
+                    if T[j].s != ",":
+                        raise Unsupported("`for` pattern")
+                    j += 1
+            i = close + 1
+        elif T[i].k == "id":
+            pat = T[i].s
+            i += 1
+        else:
+            raise Unsupported("`for` pattern")
+        if T[i].s != "in":
+            raise Unsupported("`for` pattern")
+        body_open = mt[hi - 1]
+        p = Parser(self.src, i + 1, body_open)
+        it = p.expr()
+        if p.i != body_open:
+            raise Unsupported("`for` iterator expression")
+        body = Parser(self.src, body_open + 1, hi - 1).block_body()
+        if body.tail is not None:
+            body = N("block", stmts=body.stmts + [N("exprstmt", e=body.tail)], tail=None)
+        node.parsed = (pat, it, body)
+        return node.parsed
+
+    def _assigned(self, blk, acc):
+        for s in blk.stmts:
+            if s.kind == "assign" and s.target.kind == "var":
+                acc.append(s.target.name)
+            elif s.kind == "exprstmt" and s.e.kind == "method" and s.e.name == "push" and s.e.recv.kind == "var":
+                acc.append(s.e.recv.name)
+            elif s.kind == "loop":
+                self._assigned(self._parse_for(s)[2], acc)
+        return acc
+
+    def bind_pattern(self, pat, ty, env, hint="p"):
+        """bind a closure / `for` pattern to a value of type ty -> (binder name, binder type); tuple components are
+        SUBSTITUTED by projections of the binder (no `let`)"""
+        if isinstance(pat, str):
+            ln = self.lname(pat)
+            env[pat] = (ln, ty)
+            self._declare(pat, env, False)
+            return ln, ty
+        p = self.fresh(hint)
+        if is_tup(ty) and len(ty[1]) == len(pat):
+            comps = [(self.proj(p, k, len(pat)), ty[1][k]) for k in range(len(pat))]
+        elif isinstance(ty, tuple) and ty[0] == "enum" and len(pat) == 2:
+            comps = [(p + ".2", U), (p + ".1", ty[1])]          # Rust `(index, item)`; `List.zipIdx` is `(item, index)`
+        else:
+            raise Unsupported("pattern (%s) on a value of type %s" % (", ".join(map(str, pat)), ty))
+        for name, (v, t) in zip(pat, comps):
+            if name in (None, "_"):
+                continue
+            env[name] = (v, t)
+            self._declare(name, env, False)
+        return p, ty
+
+    def loop_lines(self, s, env, d):
+        """`for pat in iter { body }` whose body only re-assigns `let mut` variables of the enclosing scope:
+        `List.foldl (fun state item => body; new state) (current state) iter`, state = the assigned variables in
+        declaration order (a single variable: itself; several: a tuple)."""
+        pat, it, body = self._parse_for(s)
+        assigned = self._assigned(body, [])
+        M = [x for x in self.decl_order if x in assigned and x in env and env.get(self.MUT + x)]
+        if not M:
+            raise Unsupported("loop `%s` assigns no `let mut` variable of the enclosing scope" % s.head)
+        itv, itty = self.expr(it, env)
+        if not is_list(itty):
+            raise Unsupported("`for` over a value of type %s" % (itty,))
+        for x in M:
+            if env[x][1] == ("list", None):       # assumed `Vec<f64>`; every `push` is checked against it
+                env[x] = ("([] : List α)", V)
+        tys = [env[x][1] for x in M]
+        init = [env[x][0] for x in M]
+        benv = dict(env)
+        if len(M) == 1:
+            st, sty = self.lname(M[0]), tys[0]
+            benv[M[0]] = (st, sty)
+            init_txt = init[0]
+        else:
+            st, sty = self.fresh("st"), ("tup", tuple(tys))
+            for k, x in enumerate(M):
+                benv[x] = (self.proj(st, k, len(M)), tys[k])
+            init_txt = "(%s)" % ", ".join(init)
+        pn, pty = self.bind_pattern(pat, elem_ty(itty), benv)
+        if isinstance(pat, str) and isinstance(itty, tuple) and itty[0] == "range":
+            benv[self.LO + pat] = itty[1]
+        finish = lambda e, dd: self.ind(dd) + ("(%s)" % ", ".join(e[x][0] for x in M) if len(M) > 1 else e[M[0]][0])
+        self.in_closure += 1
+        try:
+            btxt = self.tail_stmts(body.stmts, 0, None, benv, d + 2, finish)
+        finally:
+            self.in_closure -= 1
+        out = "%slet %s : %s := List.foldl (fun (%s : %s) (%s : %s) =>\n%s) %s %s\n" % (
+            self.ind(d), st, lean_ty(sty), st, lean_ty(sty), pn, lean_ty(pty), btxt, self.atom(init_txt), self.atom(itv))
+        if len(M) == 1:
+            env[M[0]] = (st, sty)
+        else:
+            for k, x in enumerate(M):
+                env[x] = (self.proj(st, k, len(M)), tys[k])
+        return out
+
     def _lean_ty(self, ty):
+        if self.o.loops and (ty == V or not isinstance(ty, str)):
+            return lean_ty(ty)
         if ty == V and not self.o.vectors:
             raise Unsupported("vector value (option vectors)")
         if ty == INTLIT:
@@ -1210,6 +1705,8 @@ class Translator:
         return LEAN_TY[ty]
 
     def macro_stmt(self, e, env, d, rest):
+        if self.in_closure:
+            raise Unsupported("macro `%s!` inside a closure / loop body" % e.name)
         if e.name in ("assert", "debug_assert"):
             if e.name == "debug_assert":
                 raise Unsupported("debug_assert (build dependent)")
@@ -1251,7 +1748,7 @@ class Translator:
     # ---- expressions
     def atom(self, s):
         s = s.strip()
-        if re.fullmatch(r"[\w.«»']+", s):
+        if re.fullmatch(r"[\w.«»']+", s) or re.fullmatch(r"[\w.']+\[[^\[\]]*\]!", s):
             return s
         if s.startswith("(") and self._balanced_outer(s):
             return s
@@ -1331,6 +1828,13 @@ class Translator:
         if k == "bin":
             return self.binop(e, env)
         if k == "cast":
+            inner = e.e
+            while inner.kind == "paren":
+                inner = inner.e
+            if o.loops and rust_ty(e.ty) == U and inner.kind == "method" and inner.name == "abs" and not inner.args:
+                v, ty = self.expr(inner.recv, env)
+                if ty == I:                                   # `k.abs() as usize` of a signed integer: |k|
+                    return "(Int.natAbs %s)" % self.atom(v), U
             v, ty = self.expr(e.e, env)
             want = rust_ty(e.ty)
             if want == F:
@@ -1364,6 +1868,8 @@ class Translator:
             return "(if %s then %s else %s)" % (c, a, b), ta
         if k == "block":
             return self.block_value(e, env)
+        if o.loops and k in ("tuple", "tfield", "range", "closure", "index"):
+            return self.loop_expr(e, env)
         if k == "index":
             cl = o.closure or {}
             iv = cl.get("index_vars", {})
@@ -1430,9 +1936,17 @@ class Translator:
                 if tl != INTLIT and tr != INTLIT and tl != tr:
                     raise Unsupported("mixed signed/unsigned arithmetic")
                 if ty == U and op == "-":
-                    raise Unsupported("unsigned subtraction (underflow panics)")
+                    if not o.loops:
+                        raise Unsupported("unsigned subtraction (underflow panics)")
+                    # `usize` subtraction panics on underflow: guard `r ≤ l`, unless `l` is the index of a range whose
+                    # lower bound IS `r` (then `r ≤ l` holds by construction)
+                    safe = e.l.kind == "var" and env.get(self.LO + e.l.name) == self.atom(r)
+                    if not safe:
+                        self.add_pre(("guard", "%s ≤ %s" % (self.atom(r), self.atom(l))), "checked subtraction `%s - %s`" % (l, r))
                 if op == "/":
-                    raise Unsupported("integer division")
+                    if not (o.loops and ty == U):
+                        raise Unsupported("integer division")
+                    self.add_pre(("guard", "0 < %s" % self.atom(r)), "`usize` division `%s / %s`" % (l, r))
                 return "(%s %s %s)" % (self.atom(l), op, self.atom(r)), ty
             raise Unsupported("operator `%s` on %s and %s" % (op, tl, tr))
         if op in ("==", "!=", "<", ">", "<=", ">="):
@@ -1470,7 +1984,12 @@ class Translator:
             if name in o.self_calls and not e.args:
                 return "(%s)" % " ".join([o.self_calls[name]] + self.self_args), F
             raise Unsupported("method call self.%s(..) (option self_calls)" % name)
+        if o.loops and name == "unwrap" and not e.args and recv.kind == "call" and (
+                "::".join(recv.path) in o.opt_fns or recv.path[-1] in o.opt_fns):
+            return self.expr(recv, env)             # `f(..).unwrap()`: the call is bound (`none` = Err / panic)
         r, tr = self.expr(e.recv, env)
+        if o.loops and (is_list(tr) or isinstance(tr, tuple)):
+            return self.iter_method(e, r, tr, env)
         if tr == V:
             if name == "len" and not e.args:
                 return "%s.length" % self.atom(r), U
@@ -1512,11 +2031,160 @@ class Translator:
                 return "(List.replicate %s 1)" % self.atom(vals[0][0]), V
             if key in VEC_FNS and len(vals) == 2 and vals[0][1] == V and vals[1][1] == V:
                 return VEC_BIN[(V, V)].format(op=VEC_FNS[key], l=self.atom(vals[0][0]), r=self.atom(vals[1][0])), V
+        if o.loops and key in ("Vec::new", "Vec::with_capacity"):
+            for a in e.args:
+                self.expr(a, env)
+            return "[]", ("list", None)                    # element type: fixed by the first `push`
         fn = o.fns.get(key, o.fns.get(name))
         if fn is None:
             raise Unsupported("call of `%s` has no spelling (option `fns`)" % key)
+        if o.loops:
+            # arguments of any type (slices, tuples); the result type is declared (`fn_ret`), read off the signature of a
+            # function of the same file, or f64; a function that can panic (`opt_fns`) is bound before the statement
+            args = [self.atom(self.expr(a, env)[0]) for a in e.args]
+            rty = o.fn_ret.get(key, o.fn_ret.get(name)) or (self._sig_ret(name) if len(e.path) == 1 else None) or F
+            text = "(%s)" % " ".join([fn] + args)
+            if key in o.opt_fns or name in o.opt_fns:
+                v = self.fresh("r")
+                self.add_pre(("bind", v, text, rty), "call of the panicking function `%s`" % key)
+                return v, rty
+            return text, rty
         args = [self.atom(self.fexpr(a, env)) for a in e.args]
         return "(%s)" % " ".join([fn] + args), F
+
+    def _sig_ret(self, name):
+        try:
+            f = self.src.find_fn(name)
+        except NotFound:
+            return None
+        names = [t.s for t in self.src.toks[f.ret[0]:f.ret[1]]]
+        if not names or names[0] != "->":
+            return None
+        rtxt = "".join(names[1:]).split("where")[0]
+        m_ = re.fullmatch(r"Result<(.*),String>", rtxt)
+        return rust_ty2(m_.group(1) if m_ else rtxt)
+
+    # ---- the loop / iterator-chain subset: expressions (option `loops`)
+    def loop_expr(self, e, env):
+        k = e.kind
+        if k == "tuple":
+            vals = [self.expr(x, env) for x in e.items]
+            if not vals:
+                raise Unsupported("unit value")
+            return "(%s)" % ", ".join(v for v, _ in vals), ("tup", tuple(deflt(t) for _, t in vals))
+        if k == "tfield":
+            v, ty = self.expr(e.e, env)
+            if not is_tup(ty) or e.idx >= len(ty[1]):
+                raise Unsupported("tuple field `.%d` of a value of type %s" % (e.idx, ty))
+            return self.proj(v, e.idx, len(ty[1])), ty[1][e.idx]
+        if k == "range":
+            if e.incl:
+                raise Unsupported("inclusive range")
+            lo, tlo = self.expr(e.lo, env)
+            hi, thi = self.expr(e.hi, env)
+            if tlo not in (U, INTLIT) or thi not in (U, INTLIT):
+                raise Unsupported("range of %s .. %s (only usize)" % (tlo, thi))
+            lo, hi = self.atom(lo), self.atom(hi)
+            # `lo..hi` of usize: empty when hi ≤ lo (Lean's truncated `hi - lo` is the length)
+            return ("(List.range %s)" % hi if lo == "0" else "(List.range' %s (%s - %s))" % (lo, hi, lo)), ("range", lo)
+        if k == "index":
+            v, ty = self.expr(e.e, env)
+            i, ti = self.expr(e.idx, env)
+            if isinstance(ty, tuple) and ty[0] == "win":
+                if ti != INTLIT or i not in ("0", "1"):
+                    raise Unsupported("index `%s` into a window of 2" % i)
+                return self.atom(v) + (".1" if i == "0" else ".2"), F
+            if not is_list(ty) or ti not in (U, INTLIT):
+                raise Unsupported("indexing a %s with a %s" % (ty, ti))
+            # `x[i]`: the out-of-bounds panic is NOT modelled (`getElem!`); the option `loops` is the acknowledgement
+            return "%s[%s]!" % (self.atom(v), i), elem_ty(ty)
+        raise Unsupported("closure outside an iterator adaptor")
+
+    def closure_fun(self, c, types, env, lo=None):
+        """`|pats| body` applied to items of the given types -> (Lean `fun`, type of the body)"""
+        if c.kind != "closure":
+            raise Unsupported("expected a closure, found %s" % c.kind)
+        if len(c.pats) != len(types):
+            raise Unsupported("closure arity")
+        cenv = dict(env)
+        binders = []
+        for pat, ty in zip(c.pats, types):
+            binders.append(self.bind_pattern(pat, ty, cenv))
+            if lo is not None and isinstance(pat, str) and ty == U:
+                cenv[self.LO + pat] = lo
+        self.in_closure += 1
+        try:
+            body, bty = self.expr(c.body, cenv)
+        finally:
+            self.in_closure -= 1
+        return "(fun %s => %s)" % (" ".join("(%s : %s)" % (n, lean_ty(t)) for n, t in binders), body), bty
+
+    def iter_method(self, e, r, tr, env):
+        """slices / Vec / ranges / iterator chains.  Every adaptor is spelled with the core `List` function that visits
+        the same items in the same order; `.iter()`, `.into_iter()`, `.collect()` are the identity on `List`."""
+        o, name, args = self.o, e.name, e.args
+        if not is_list(tr):
+            raise Unsupported("method `.%s` on a value of type %s" % (name, tr))
+        T = elem_ty(tr)
+        ra = self.atom(r)
+
+        def nat_arg():
+            if len(args) != 1:
+                raise Unsupported("`.%s` arity" % name)
+            a, ta = self.expr(args[0], env)
+            if ta not in (U, INTLIT):
+                raise Unsupported("`.%s(%s)`: argument of type %s" % (name, a, ta))
+            return self.atom(a)
+
+        if name in ("iter", "into_iter", "to_vec", "clone", "copied", "cloned") and not args:
+            return r, tr
+        if name == "len" and not args:
+            return "%s.length" % ra, U
+        if name == "collect" and not args:
+            return r, norm_list(tr)
+        if name == "rev" and not args:
+            return "(List.reverse %s)" % ra, norm_list(tr)
+        if name == "skip":
+            return "(List.drop %s %s)" % (nat_arg(), ra), norm_list(tr)
+        if name == "take":
+            return "(List.take %s %s)" % (nat_arg(), ra), norm_list(tr)
+        if name == "enumerate" and not args:
+            return "(List.zipIdx %s)" % ra, ("list", ("enum", T))
+        if name == "windows":
+            if nat_arg() != "2" or T != F:
+                raise Unsupported("`.windows(k)` only for k = 2 on f64 slices")
+            return "(List.zip %s (List.tail %s))" % (ra, ra), ("list", ("win", 2))
+        if name == "zip":
+            if len(args) != 1:
+                raise Unsupported("`.zip` arity")
+            a, ta = self.expr(args[0], env)
+            if not is_list(ta):
+                raise Unsupported("`.zip` with a value of type %s" % (ta,))
+            return "(List.zip %s %s)" % (ra, self.atom(a)), ("list", ("tup", (T, elem_ty(ta))))
+        if name == "map":
+            if len(args) != 1:
+                raise Unsupported("`.map` arity")
+            lo = tr[1] if isinstance(tr, tuple) and tr[0] == "range" else None
+            fun, bty = self.closure_fun(args[0], [T], env, lo)
+            return "(List.map %s %s)" % (fun, ra), mk_list(deflt(bty))
+        if name == "fold":
+            if len(args) != 2:
+                raise Unsupported("`.fold` arity")
+            init, tinit = self.expr(args[0], env)
+            tinit = deflt(tinit)
+            fun, bty = self.closure_fun(args[1], [tinit, T], env)
+            if not compat(bty, tinit):
+                raise Unsupported("`.fold`: closure of type %s, seed of type %s" % (bty, tinit))
+            return "(List.foldl %s %s %s)" % (fun, self.atom(init), ra), tinit
+        if name == "sum" and not args:
+            if T != F or e.turbofish not in (None, "f64"):
+                raise Unsupported("`.sum` of items of type %s" % (T,))
+            return "(%s %s)" % (o.iter_sum, ra), F           # `Iterator::sum::<f64>()`: left fold from -0.0
+        if name == "product" and not args:
+            if T != F or e.turbofish not in (None, "f64"):
+                raise Unsupported("`.product` of items of type %s" % (T,))
+            return "(List.foldl (· * ·) 1 %s)" % ra, F        # `Iterator::product::<f64>()`: left fold from 1.0
+        raise Unsupported("iterator / slice method `.%s` on %s" % (name, tr))
 
     # ---- closures (per-observation scalar formulas of iterator pipelines)
     def _closure_def(self):
@@ -1745,6 +2413,28 @@ impl Fam { pub fn link(&self, eta: &[f64], mu: &[f64]) -> Vector { match self {
     Fam::B => { let e = Vector::from(eta); 1. / (1. + (-e).exp()) }
     Fam::C => Vector::from(vmul(&mu, &mu)),
     Fam::D => { let m = Vector::from(mu); &m * (1. - &m) } } } }
+fn l_welford(agg: (usize, f64, f64), v: &f64) -> (usize, f64, f64) { let (mut c, mut m, mut s) = agg; c += 1; let d = v - m; m += d / c as f64; s += d * (v - m); (c, m, s) }
+fn l_fold(data: &[f64]) -> (usize, f64, f64) { let mut a = (0_usize, 0., 0.); for i in data { a = l_welford(a, i); } a }
+fn l_acc(x: &[f64], y: &[f64]) -> f64 { assert_eq!(x.len(), y.len()); let n = x.len(); let (mut s, mut t) = (0., 0.);
+    for i in 0..n { let d = x[i] - y[i]; s += d * d; t += d; } (s - t) / (n - 1) as f64 }
+fn l_chain(x: &[f64], m: f64) -> f64 { x.iter().map(|v| (v - m).exp()).sum::<f64>() / x.len() as f64 }
+fn l_zip(x: &[f64], y: &[f64]) -> f64 { let mut c = 0.; for (a, b) in x.iter().zip(y.iter()) { c += a * b; } c }
+fn l_arg(d: &[f64]) -> usize { d.iter().enumerate().fold((0, f64::MAX), |acc, (i, j)| if acc.1 > *j { (i, *j) } else { acc }).0 }
+fn l_win(e: &[f64]) -> Vec<f64> { e.windows(2).map(|w| (w[0] + w[1]) / 2.).collect() }
+fn l_lag(ts: &[f64], k: i32) -> f64 { (k.abs() as usize..ts.len()).into_iter().map(|i| ts[i] * ts[i - k.abs() as usize]).sum::<f64>() }
+fn l_diff(v: Vec<f64>) -> Vec<f64> { (0..v.len() - 1).map(|i| v[i + 1] - v[i]).collect() }
+fn l_skip(x: &[f64]) -> f64 { x.iter().skip(1).take(3).rev().fold(0., |a, c| a * 2. + c) }
+fn l_push(n: usize, x: &[f64]) -> Vec<f64> { let mut out = Vec::with_capacity(n); for i in 0..n { let mut s = 0.; for j in 0..2 { s += x[i * 2 + j]; } out.push(s); } out }
+fn l_sqrt(x: &[f64]) -> f64 { l_opt(x).sqrt() * x.iter().product::<f64>() }
+fn l_res(m: &[f64], r: usize) -> Result<usize, String> { let c = m.len() / r; if r * c == m.len() { Ok(c) } else { Err("no".to_string()) } }
+fn l_unw(m: &[f64], r: usize) -> f64 { let c = l_res(m, r).unwrap(); c as f64 }
+fn l_break(x: &[f64]) -> f64 { let mut s = 0.; for v in x { if *v < 0. { break; } s += v; } s }
+fn l_while(x: f64) -> f64 { let mut s = x; while s > 1. { s /= 2.; } s }
+fn l_sub(ts: &[f64], k: usize) -> f64 { (0..ts.len()).map(|i| ts[i - k]).sum::<f64>() }
+fn l_idxassign(x: &[f64]) -> f64 { let mut v = x.to_vec(); v[0] = 1.; v[0] }
+fn l_filter(x: &[f64]) -> f64 { x.iter().filter(|v| **v > 0.).sum::<f64>() }
+fn l_assert(x: &[f64]) -> f64 { let mut s = 0.; for v in x { assert!(*v > 0.); s += v; } s }
+fn l_immut(x: &[f64]) -> f64 { let s = 0.; for v in x { s += v; } s }
 #[cfg(test)]
 mod tests { fn logistic(x: f64) -> f64 { x } }
 '''
@@ -1825,6 +2515,45 @@ def _selftest():
     check("Fam::link", "(let m : List α := mu; (Cv.Vops.vbinGo (· * ·) m (Cv.Vops.sv (· - ·) 1 m)))", vectors=True,
           closure=dict(kind="arm", arm="D"))
     refuse("Fam::link", "vectors", closure=dict(kind="arm", arm="D"))
+    # ---- loops and iterator chains (option `loops`)
+    L = dict(loops=True, int_arith=True)
+    check("l_welford", "let c : Nat := (agg.1 + 1) let d : α := (v - agg.2.1) let m : α := (agg.2.1 + (d / ((c : Nat) : α))) "
+          "let s : α := (agg.2.2 + (d * (v - m))) (c, m, s)", **L)
+    check("l_fold", "let a : Nat × α × α := ((0 : Nat), 0, 0) let a : Nat × α × α := List.foldl (fun (a : Nat × α × α) (i : α) => "
+          "let a : Nat × α × α := (W a i) a) a data a", fns={"l_welford": "W"}, **L)
+    # two accumulators: state tuple in declaration order; assert -> Option; checked `n - 1` -> guard around the statement
+    check("l_acc", "if x.length = y.length then let n : Nat := x.length let s : α := 0 let t : α := 0 "
+          "let st1 : α × α := List.foldl (fun (st1 : α × α) (i : Nat) => let d : α := (x[i]! - y[i]!) "
+          "let s : α := (st1.1 + (d * d)) let t : α := (st1.2 + d) (s, t)) (s, t) (List.range n) "
+          "if 1 ≤ n then some ((st1.1 - st1.2) / (((n - 1) : Nat) : α)) else none else none", **L)
+    check("l_chain", "((Cv.iterSum (List.map (fun (v : α) => (Cv.Transc.exp (v - m))) x)) / ((x.length : Nat) : α))", **L)
+    check("l_chain", "((S (List.map (fun (v : α) => (Cv.Transc.exp (v - m))) x)) / ((x.length : Nat) : α))", iter_sum="S", **L)
+    check("l_zip", "let c : α := 0 let c : α := List.foldl (fun (c : α) (p1 : α × α) => let c : α := (c + (p1.1 * p1.2)) c) c "
+          "(List.zip x y) c", **L)
+    check("l_arg", "(List.foldl (fun (acc : Nat × α) (p1 : α × Nat) => (if acc.2 > p1.1 then (p1.2, p1.1) else acc)) (0, big) "
+          "(List.zipIdx d)).1", consts={"f64::MAX": "big"}, **L)
+    check("l_win", "(List.map (fun (w : α × α) => ((w.1 + w.2) / ((2 : Nat) : α))) (List.zip e (List.tail e)))", **L)
+    # `i - |k|` inside the closure needs no guard: `i` ranges over `|k|..n`
+    check("l_lag", "(Cv.iterSum (List.map (fun (i : Nat) => (ts[i]! * ts[(i - (Int.natAbs k))]!)) "
+          "(List.range' (Int.natAbs k) (ts.length - (Int.natAbs k)))))", **L)
+    check("l_diff", "if 1 ≤ v.length then some (List.map (fun (i : Nat) => (v[(i + 1)]! - v[i]!)) (List.range (v.length - 1))) else none", **L)
+    check("l_skip", "(List.foldl (fun (a : α) (c : α) => ((a * ((2 : Nat) : α)) + c)) 0 (List.reverse (List.take 3 (List.drop 1 x))))", **L)
+    check("l_push", "let out : List α := List.foldl (fun (out : List α) (i : Nat) => let s : α := 0 "
+          "let s : α := List.foldl (fun (s : α) (j : Nat) => let s : α := (s + x[((i * 2) + j)]!) s) s (List.range 2) "
+          "let out : List α := (out ++ [s]) out) ([] : List α) (List.range n) out", **L)
+    check("l_sqrt", "(G x).bind fun (r1 : α) => some ((Cv.Transc.sqrt r1) * (List.foldl (· * ·) 1 x))", fns={"l_opt": "G"},
+          opt_fns=("l_opt",), **L)
+    check("l_res", "if 0 < r then let c : Nat := (m.length / r) if (r * c) = m.length then some c else none else none", **L)
+    check("l_unw", "(R m r).bind fun (r1 : Nat) => let c : Nat := r1 some ((c : Nat) : α)", fns={"l_res": "R"}, opt_fns=("l_res",), **L)
+    refuse("l_break", "inside a loop body", **L)
+    refuse("l_while", "only `for` loops", **L)
+    refuse("l_sub", "inside a closure", **L)
+    refuse("l_idxassign", "assignment to `index`", **L)
+    refuse("l_filter", ".filter", **L)
+    refuse("l_assert", "inside a loop body", **L)
+    refuse("l_immut", "assigns no `let mut` variable", **L)
+    refuse("l_fold", "parameter data")                       # without the option nothing changes
+    refuse("l_chain", "parameter x")
     # the test module's `logistic` is not a candidate; unknown names are reported
     try:
         S.find_fn("nope")
